@@ -140,6 +140,11 @@ structure Cov where
 
 def allowRhs (n : Node) : Bool := n.isBinop || n.isConst || n.isId || n.isUnop
 def allowOperand (n : Node) : Bool := n.isConst || n.isId
+/-- `Coverage.UnaryOp`: a nested unary operation is accepted only under `!` / `sizeof` (its value is
+    not needed) and only when it is not itself `++` / `--` -/
+def nestedOk (op : String) : Node → Bool
+  | .unop op' _ => (op == "!" || op == "sizeof") && !Gen.incDec.contains op'
+  | _ => false
 
 mutual
 def covN : Node → M Cov
@@ -159,7 +164,7 @@ def covN : Node → M Cov
   | .cast e => do let c ← covN e; pure ⟨c.up, c.inner, .cast c.mod⟩
   | n@(.unop op e) =>
     -- the operand is tested with its casts removed (`while isinstance(operand, Cast)`)
-    if Gen.uOps.contains op && (e.rmCast.isId || e.rmCast.isConst || e.rmCast.isUnop) then do
+    if Gen.uOps.contains op && (e.rmCast.isId || e.rmCast.isConst || nestedOk op e.rmCast) then do
       let c ← covN e; pure ⟨c.up, c.inner, .unop op c.mod⟩
     else pure ⟨1, 0, n⟩
   | n@(.decl _ ty init) =>
